@@ -11,6 +11,11 @@ _CTX = mp.get_context("fork")
 
 
 def _init():
+    import signal
+
+    # the main process installs a SIGTERM handler (scratch cleanup); pool workers must die on
+    # SIGTERM as multiprocessing expects, otherwise Pool.terminate() can hang
+    signal.signal(signal.SIGTERM, signal.SIG_DFL)
     warnings.simplefilter("ignore")
 
 
@@ -20,7 +25,7 @@ def _call(packed):
         with warnings.catch_warnings():
             warnings.simplefilter("ignore")
             return fn(arg)
-    except BaseException as e:  # a crash of the harness itself, never a verdict
+    except Exception as e:  # noqa: BLE001 - a crash of the harness itself, never a verdict
         return {"harness_errors": [f"worker crashed in {getattr(fn, '__name__', fn)}({str(arg)[:200]}): "
                                    f"{type(e).__name__}: {e}\n{traceback.format_exc(limit=8)}"]}
 
@@ -46,6 +51,42 @@ def shards(n_items, n_shards):
     return [(lo, min(n_items, lo + step)) for lo in range(0, n_items, step)]
 
 
+def _sweep_stale(base):
+    """Remove scratch directories left behind by runs that were killed (their pid is gone)."""
+    import shutil
+
+    try:
+        names = os.listdir(base)
+    except OSError:
+        return
+    for n in names:
+        if not n.startswith("verif-np-"):
+            continue
+        parts = n.split("-")
+        try:
+            pid = int(parts[2])
+        except (IndexError, ValueError):
+            pid = None
+        alive = False
+        if pid is None:
+            import time
+
+            try:  # old naming scheme: only remove when clearly abandoned
+                alive = time.time() - os.path.getmtime(os.path.join(base, n)) < 7200
+            except OSError:
+                alive = True
+        else:
+            try:
+                os.kill(pid, 0)
+                alive = True
+            except ProcessLookupError:
+                alive = False
+            except PermissionError:
+                alive = True
+        if not alive:
+            shutil.rmtree(os.path.join(base, n), ignore_errors=True)
+
+
 class Scratch:
     """Per-run scratch directory, created by the main process and removed at its exit; workers use
     a per-pid sub-directory of it. Nothing registered in MANIFEST depends on its content."""
@@ -67,7 +108,8 @@ class Scratch:
                 cls._pid = os.getpid()
             else:
                 base = os.environ.get("VERIF_SCRATCH") or tempfile.gettempdir()
-                cls._dir = tempfile.mkdtemp(prefix="verif-np-", dir=base)
+                _sweep_stale(base)
+                cls._dir = tempfile.mkdtemp(prefix=f"verif-np-{os.getpid()}-", dir=base)
                 cls._pid = os.getpid()
                 os.environ["VERIF_SCRATCH_RUN"] = cls._dir
                 d, pid = cls._dir, cls._pid
@@ -77,6 +119,13 @@ class Scratch:
                         shutil.rmtree(d, ignore_errors=True)
 
                 atexit.register(_rm)
+                try:
+                    import signal
+                    import sys
+
+                    signal.signal(signal.SIGTERM, lambda *_: sys.exit(143))
+                except ValueError:
+                    pass
         return cls._dir
 
     @classmethod
